@@ -110,8 +110,11 @@ impl InkList {
         if !self.items.is_empty() {
             let mut names = Vec::new();
 
+            // Items loaded without an origin (bare item names) contribute no name.
             for k in self.items.keys() {
-                names.push(k.get_origin_name().unwrap().clone());
+                if let Some(origin_name) = k.get_origin_name() {
+                    names.push(origin_name.clone());
+                }
             }
 
             return names;
